@@ -67,20 +67,6 @@ def classify(v):
         return "C02-loops-misread"
     if f.get("cyclic") and kind.startswith("reject"):
         return "C02-loops-rejected"
-    if f.get("entry_jump_targeted") and kind.startswith("behaviour-diff"):
-        return "C02-entry-jump-targeted"
-    if (f.get("ctx_before_jump") or f.get("ctx_before_block")) and kind.startswith("reject"):
-        return "C02-ctx-before-block"
-    if "'chain'" in v.get("case_id", "") and kind.startswith("behaviour-diff"):
-        import ast
-        try:
-            cid = ast.literal_eval(v["case_id"])
-            kinds, negs, else_kind = cid[2], cid[3], cid[4]
-            parts = list(kinds) + [else_kind]
-            if any(negs[i] and kinds[i] in ("end", "return") and "jump_after" in parts[i + 1:] for i in range(len(kinds))):
-                return "C02-negated-leaving-elseif-before-jump-only-part"
-        except Exception:
-            pass
     return None
 
 
